@@ -232,6 +232,53 @@ func (s *Stmt) all() (out []struct{ n, p *Stmt }) {
 
 var someKeywords = []string{"leaf", "container", "list", "type", "key", "belongs-to", "import", "include", "prefix", "namespace", "default", "mandatory", "config", "uses", "grouping", "typedef", "choice", "case", "augment", "must", "when", "range", "length", "pattern", "enum", "revision", "feature", "if-feature", "identity", "base", "unique", "min-elements", "max-elements", "ordered-by", "status", "description", "presence", "units", "value", "bit", "position", "path", "require-instance", "fraction-digits", "deviation", "deviate", "rpc", "input", "output", "notification", "refine", "extension", "argument", "yin-element", "yang-version", "organization", "contact", "reference", "revision-date", "submodule", "module", "anyxml", "leaf-list", "error-message", "error-app-tag", "ex:ext"}
 
+var typedArg = map[string]bool{"value": true, "position": true, "min-elements": true, "max-elements": true, "fraction-digits": true, "range": true, "length": true, "revision": true, "revision-date": true, "mandatory": true, "config": true, "require-instance": true, "yin-element": true, "ordered-by": true, "status": true, "yang-version": true, "key": true, "unique": true, "path": true}
+
+var argGarbles = []string{"", " ", "1..", "..", "a b", "a  b", "|", "1|", "/", "/a/", "a:", ":a", "2020-13-45", "202-01-01", "-", "0x10", "min..max|", "é", "a\"b", "current()", "../", "[", "true ", "1e3", "9999999999999999999999", "*", "a/b/", "p:"}
+
+// ArgSweep returns, for every keyword of the tree whose argument has a grammar of
+// its own (numbers, ranges, dates, booleans, keys, paths), the texts in which ONE
+// statement of that keyword (drawn) carries each of the garbled arguments in turn:
+// the whole product keyword x garble for this module, rendered canonically.
+// maxBytes bounds the total size of the texts returned.
+func (s *Stmt) ArgSweep(t *tape.Tape, maxBytes int) (texts []string, kws []string) {
+	c := s.Clone()
+	nodes := c.all()
+	byKw := map[string][]*Stmt{}
+	for _, y := range nodes {
+		if typedArg[y.n.Kw] && !y.n.NoArg {
+			if _, ok := byKw[y.n.Kw]; !ok {
+				kws = append(kws, y.n.Kw)
+			}
+			byKw[y.n.Kw] = append(byKw[y.n.Kw], y.n)
+		}
+	}
+	total := 0
+	for _, kw := range kws {
+		l := byKw[kw]
+		x := l[t.Draw(len(l))]
+		old := x.Arg
+		gs := argGarbles
+		if numberArg[kw] {
+			gs = append(append([]string{}, argGarbles...), numberGarbles...)
+		}
+		for _, g := range gs {
+			x.Arg = g
+			txt := c.Text()
+			if total += len(txt); total > maxBytes {
+				x.Arg = old
+				return texts, kws
+			}
+			texts = append(texts, txt)
+		}
+		x.Arg = old
+	}
+	return texts, kws
+}
+
+var numberArg = map[string]bool{"value": true, "position": true, "min-elements": true, "max-elements": true, "fraction-digits": true, "range": true, "length": true}
+var numberGarbles = []string{"-", "+", "-0", "+1", "--1", "1-", "- 1", "01", "0x", "0x1F", "1_000", "1e3", "1.", ".5", "-.", "4294967296", "-2147483649", "18446744073709551616", "unbounded ", "max", "min", "0..", "..0", "1..2..3", "1 | | 2", "|", "-1..-2"}
+
 // DamageStructure applies one statement-level operator to a clone of the tree:
 // drop / duplicate / move a whole statement, swap two siblings, change a
 // keyword, clear or garble an argument. The text stays lexically and
@@ -315,7 +362,29 @@ func (s *Stmt) DamageStructure(t *tape.Tape) (*Stmt, string) {
 		return c, "arg-toggle:" + x.n.Kw
 	default:
 		x := nodes[t.Draw(len(nodes))]
-		x.n.Arg = []string{"", " ", "1..", "..", "a b", "a  b", "|", "1|", "/", "/a/", "a:", ":a", "2020-13-45", "202-01-01", "-", "0x10", "min..max|", "é", "a\"b", "current()", "../", "[", "true ", "1e3", "9999999999999999999999", "*", "a/b/", "p:"}[t.Draw(28)]
+		if t.Coin() {
+			// statements whose argument has its own little grammar (numbers, ranges, dates, booleans, paths):
+			// first a keyword among those present (so that the rare ones get their share), then one of its statements
+			byKw := map[string][]struct{ n, p *Stmt }{}
+			var kws []string
+			for _, y := range nodes {
+				if typedArg[y.n.Kw] {
+					if _, ok := byKw[y.n.Kw]; !ok {
+						kws = append(kws, y.n.Kw)
+					}
+					byKw[y.n.Kw] = append(byKw[y.n.Kw], y)
+				}
+			}
+			if len(kws) > 0 {
+				l := byKw[kws[t.Draw(len(kws))]]
+				x = l[t.Draw(len(l))]
+				if numberArg[x.n.Kw] && t.Coin() {
+					x.n.Arg = numberGarbles[t.Draw(len(numberGarbles))]
+					return c, "arg-garble:" + x.n.Kw
+				}
+			}
+		}
+		x.n.Arg = argGarbles[t.Draw(len(argGarbles))]
 		return c, "arg-garble:" + x.n.Kw
 	}
 }
